@@ -100,6 +100,11 @@ pub fn check_case(c: &Case) -> CaseOut {
         eprintln!("{} disassemble {:?}", c.id, t0.elapsed());
     }
     let mut viols = vec![];
+    // second use: disassembling the same module again gives the same text
+    match guarded(|| module.disassemble()) {
+        Ok(t2) if t2 == text => {}
+        other => viols.push(viol(format!("C07:repeat:{}", opname), format!("case {}: a second disassemble() of the same module gives {:?}", c.id, other.map(|t| t.chars().take(200).collect::<String>())), rep.clone())),
+    }
     let lines: Vec<&str> = text.split('\n').collect();
     // header comment: version major.minor, generator tool name (the loader stamps rspirv's), id bound
     let want_header = header_lines(c.version, 0x000f_0000, c.bound);
